@@ -44,6 +44,16 @@ Ltac pq_split :=
 (* part 1: the handlers, on every request and world                                           *)
 (* ------------------------------------------------------------------------------------------ *)
 
+(* the empty string is the zero address: sdk.AccAddressFromBech32 refuses it and the undecodable strings; the handlers
+   below test for the empty string themselves, first *)
+Lemma AccAddress_cases a :
+  ent_AccAddressFromBech32 a =
+    if a =? go_zero_addr then Err ERR_ENT else if a =? BAD_ADDR then Err ERR_ENT else Ok a.
+Proof.
+  unfold ent_AccAddressFromBech32, addr_parses. change EMPTY_ADDR with go_zero_addr.
+  destruct (a =? BAD_ADDR), (a =? go_zero_addr); reflexivity.
+Qed.
+
 (* the two getters: the stored amount, or zero of the current denomination; they never fail *)
 Theorem ent_point_GetLockedUndAmountForAccount_eq : forall w a,
   go_GetLockedUndAmountForAccount w a = Ok (locked_coin (ew_ent w) a).
@@ -74,8 +84,8 @@ Theorem ent_point_LockedUndByAddress_cases : forall w req,
     if a =? BAD_ADDR then Err ERR_ENT else
     Ok (mk_go_QueryLockedUndByAddressResponse (locked_coin (ew_ent w) a)).
 Proof.
-  intros w req. unfold go_LockedUndByAddress, go_GetLockedUndAmountForAccount, ent_GetLockedUndForAccount,
-    ent_AccAddressFromBech32. cbv zeta. pq_split; reflexivity.
+  intros w req. unfold go_LockedUndByAddress, go_GetLockedUndAmountForAccount, ent_GetLockedUndForAccount.
+  rewrite AccAddress_cases. cbv zeta. pq_split; reflexivity.
 Qed.
 
 (* TotalSpentEFUND: the stored total (zero of the current denomination when never written), whatever the request *)
@@ -91,8 +101,8 @@ Theorem ent_point_SpentEFUNDByAddress_cases : forall w req,
     if a =? BAD_ADDR then Err ERR_ENT else
     Ok (mk_go_QuerySpentEFUNDByAddressResponse (spent_coin (ew_ent w) a)).
 Proof.
-  intros w req. unfold go_SpentEFUNDByAddress, go_GetSpentEFUNDAmountForAccount, ent_GetSpentEFUNDForAccount,
-    ent_AccAddressFromBech32. cbv zeta. pq_split; reflexivity.
+  intros w req. unfold go_SpentEFUNDByAddress, go_GetSpentEFUNDAmountForAccount, ent_GetSpentEFUNDForAccount.
+  rewrite AccAddress_cases. cbv zeta. pq_split; reflexivity.
 Qed.
 
 (* Whitelist: the stored whitelist, in store order, whatever the request *)
@@ -109,7 +119,7 @@ Theorem ent_point_Whitelisted_cases : forall w req,
     if a =? BAD_ADDR then Err ERR_ENT else
     Ok (mk_go_QueryWhitelistedResponse a (mem_addr a (e_wl (ew_ent w)))).
 Proof.
-  intros w req. unfold go_Whitelisted, ent_AddressIsWhitelisted, ent_AccAddressFromBech32. cbv zeta.
+  intros w req. unfold go_Whitelisted, ent_AddressIsWhitelisted. rewrite AccAddress_cases. cbv zeta.
   pq_split; reflexivity.
 Qed.
 
@@ -138,7 +148,7 @@ Theorem ent_point_EnterpriseAccount_cases : forall w req,
     then Ok (mk_go_QueryEnterpriseAccountResponse (account_view w a))
     else Panic GO_PANIC_DENOM.
 Proof.
-  intros w req. unfold go_EnterpriseAccount, ent_AccAddressFromBech32. cbv zeta.
+  intros w req. unfold go_EnterpriseAccount. rewrite AccAddress_cases. cbv zeta.
   destruct (QueryEnterpriseAccountRequest_Address req =? go_zero_addr); [reflexivity|].
   destruct (QueryEnterpriseAccountRequest_Address req =? BAD_ADDR); [reflexivity|]. cbn [obind].
   rewrite GeneratedEnterpriseQueryEq.gen_ent_GetEnterpriseUserAccount_eq. cbv zeta. unfold account_view.
